@@ -1,4 +1,5 @@
 # name -> (sources relative to /verif/harness, extra compiler/linker flags)
 ALL = {
     "cache_drv": (["cache/cache_drv.cpp"], []),
+    "conc_drv": (["cache/conc_drv.cpp"], []),
 }
